@@ -13,6 +13,7 @@ package store
 
 import (
 	"context"
+	"sync"
 
 	"github.com/google/uuid"
 	"github.com/samber/lo"
@@ -101,6 +102,12 @@ func (s *State) IsZero() bool {
 
 type core struct {
 	store.Observable[State, Change]
+	// mu makes the read-modify-write updates below atomic. The observable's own lock
+	// covers a single CopyState or SetState: without mu two concurrent updates (the
+	// gossip round merging a peer's answer while the server side merges another
+	// node's exchange, or the host changing its own record) both start from the same
+	// copy and the one that writes last silently undoes the other.
+	mu sync.Mutex
 }
 
 // ClusterKey implements Store.
@@ -113,6 +120,8 @@ func (c *core) ClusterKey() uuid.UUID {
 
 // SetClusterKey implements Store.
 func (c *core) SetClusterKey(ctx context.Context, key uuid.UUID) {
+	c.mu.Lock()
+	defer c.mu.Unlock()
 	s := c.CopyState()
 	s.ClusterKey = key
 	c.SetState(ctx, s)
@@ -137,6 +146,8 @@ func (c *core) GetHost() node.Node {
 
 // SetHost implements Store.
 func (c *core) SetHost(ctx context.Context, n node.Node) {
+	c.mu.Lock()
+	defer c.mu.Unlock()
 	snap := c.CopyState()
 	snap.Nodes[n.Key] = n
 	snap.HostKey = n.Key
@@ -145,6 +156,8 @@ func (c *core) SetHost(ctx context.Context, n node.Node) {
 
 // SetNode implements Store.
 func (c *core) SetNode(ctx context.Context, n node.Node) {
+	c.mu.Lock()
+	defer c.mu.Unlock()
 	snap := c.CopyState()
 	snap.Nodes[n.Key] = n
 	c.SetState(ctx, snap)
@@ -152,6 +165,8 @@ func (c *core) SetNode(ctx context.Context, n node.Node) {
 
 // Merge implements Store.
 func (c *core) Merge(ctx context.Context, other node.Group) {
+	c.mu.Lock()
+	defer c.mu.Unlock()
 	snap := c.CopyState()
 	for _, n := range other {
 		in, ok := snap.Nodes[n.Key]
